@@ -6,23 +6,31 @@
 (* Emitted for every request q of the domain:                                   *)
 (*   - every one-route table (what "this route matches q" means for the code),  *)
 (*   - every table of 2..GenMax routes that are all candidates for q            *)
-(*     (a non-candidate takes no part in the selection),                        *)
+(*     (a non-candidate takes no part in the selection); unless Wide, tables of *)
+(*     more than two routes only for POST requests (they reach the ANY routes   *)
+(*     and "/": the same path logic on a quarter of the tables),                *)
 (*   - every candidate paired with each route of Distract (does a route that    *)
 (*     does not match disturb the choice?).                                     *)
 EXTENDS RouteResolve_MC, Json
 
-CONSTANTS GenMax
+CONSTANTS GenMax, Wide
 
 Distract == {[m |-> "GET", e |-> <<"a">>], [m |-> AnyM, e |-> <<MCVar, "a">>], [m |-> "GET", e |-> Root]}
 
 GenCases(q) ==
   LET CU == Cands(MCUniverse, q)
   IN {{r} : r \in MCUniverse}
-     \cup UNION {kSubset(k, CU) : k \in 2..GenMax}
+     \cup UNION {kSubset(k, CU) : k \in 2..(IF Wide \/ q.m = "POST" THEN GenMax ELSE 2)}
      \cup UNION {{{r, s} : s \in Distract \ {r}} : r \in CU}
 
 GenInit == \E q \in MCReqs : req = q /\ table \in GenCases(q) /\ seen = {}
 GenNext == UNCHANGED vars
 GenSpec == GenInit /\ [][GenNext]_vars
 Emit == PrintT(ToJson([t |-> table, q |-> req]))
+
+\* random larger tables (TLC -simulate, seeded): only candidates of the request are registered
+SimMax  == GenMax + 2
+SimNext == \E r \in Cands(MCUniverse, req) \ table : Cardinality(table) < SimMax /\ Register(r)
+SimSpec == Init /\ [][SimNext]_vars
+SimEmit == Cardinality(table) < SimMax \/ PrintT(ToJson([t |-> table, q |-> req]))
 =============================================================================
